@@ -1188,6 +1188,20 @@ func (ex *Exec) localEnv(fr *Frame, st *State) map[string]SV {
 			}
 		}
 	}
+	// a name whose most recently declared variable does not exist on this
+	// path (it is declared further down, or in another branch): the latest
+	// declared one that does
+	for name, all := range fr.namedAll {
+		if _, have := env[name]; have {
+			continue
+		}
+		for k := len(all) - 1; k >= 0; k-- {
+			if v, present := st.Cells[all[k]]; present {
+				env[name] = SV{V: v, T: all[k].Type}
+				break
+			}
+		}
+	}
 	// free variables of closures: by name through their bindings
 	for i, fv := range fr.fn.FreeVars {
 		if i < len(fr.bind) {
